@@ -97,6 +97,7 @@ def pickle_handler():
 KINDS = {
     "pkl": Kind("pkl", ".pkl", lambda c: {"payload": c, "blob": bytes(range(c * 3))}, lambda a, b: a == b, pickle_handler),
     "pkl.zip": Kind("pkl.zip", ".pkl.zip", lambda c: {"payload": c, "blob": bytes(range(c * 3))}, lambda a, b: a == b, pickle_handler),
+    "pkl-post": Kind("pkl-post", ".pkl", lambda c: {"payload": c}, lambda a, b: isinstance(b, dict) and b.get("post_read") is True and b.get("data") == a, pickle_handler),
     "nc": Kind("nc", ".nc", dataset_content, ds_same),
     "nc.gz": Kind("nc.gz", ".nc.gz", dataset_content, ds_same),
     "ncrich": Kind("ncrich", ".nc", rich_content, ds_same),
@@ -118,7 +119,13 @@ CONFIGS = [
     ("full", "notag", 0, 1, "pkl.zip", "pkl.zip", True),
     ("full", "full", 2, 0, "pkl", "pkl", False),           # day-of-year spelling of start and end across New Year
     ("full", "full", 1, 2, "nc", "nc", False),
+    ("full", "noend", 0, 1, "pkl-post", "pkl-post", False),   # post_reader is applied on every read, and only on reads
 ]
+
+
+def post_reader(file_info, data):
+    """post-processing hook of the fileset: marks what it has seen (the harness' equality requires the mark)"""
+    return {"post_read": True, "data": data}
 
 
 class Side:
@@ -133,6 +140,8 @@ class Side:
             kw["handler"] = self.kind.handler()
         if self.kind.read_args:
             kw["read_args"] = self.kind.read_args
+        if self.kind.name == "pkl-post":
+            kw["post_reader"] = post_reader
         self.fs = FileSet(self.tmpl, name="side-" + os.path.basename(root), **kw)
 
     def snapshot(self):
